@@ -22,6 +22,7 @@ theorem scanEntry_eq (path : Bytes) : (e : Entry) → (d : Nat) → height e ≤
   | .dangling, d, _ => by simp [scanEntry, filesOf]
   | .fifo, d, _ => by simp [scanEntry, filesOf]
   | .socket, d, _ => by simp [scanEntry, filesOf]
+  | .lockedDir, d, _ => by simp [scanEntry, filesOf]
 theorem scanChildren_eq (dir : Bytes) : (l : List (Bytes × Entry)) → (d : Nat) → heightList l ≤ d →
     scanChildren dir l d = (filesOfList dir l).map fun f => Ev.report f.1 f.2
   | [], d, _ => by simp [scanChildren, filesOfList]
